@@ -307,6 +307,23 @@ func runC15(env *Env, data map[string]any) *Outcome {
 			if mm := reshapeCal(model); impl != mm {
 				addF(o, Finding{Kind: "K", What: "K.C15.cal: calendar functions differ from the model on " + dstr(date), Impl: impl, Model: mm, Input: in})
 			}
+			if gd := gsDriver(env); gd != nil {
+				// the translated Go source of the calendar (Gen/GoCal.lean) evaluated against the running code
+				wy2, ww2 := date.WeekNumber()
+				pe := func(f func() period.Period) string {
+					out := ""
+					if p := safely(func() { out = pstr(f()) }); p != "" {
+						return "panic"
+					}
+					return out
+				}
+				gimpl := fmt.Sprintf("wd=%d q=%d wk=%d-%d week=%s month=%s quarter=%s year=%s", date.Weekday(), date.Quarter(), wy2, ww2,
+					pe(func() period.Period { return period.NewWeekFromDate(date).Period() }), pe(func() period.Period { return period.NewMonthFromDate(date).Period() }),
+					pe(func() period.Period { return period.NewQuarterFromDate(date).Period() }), pe(func() period.Period { return period.NewYearFromDate(date).Period() }))
+				if gm := gd.Ask("gs.cal", fmt.Sprint(year), fmt.Sprint(m), fmt.Sprint(d)); gm != gimpl {
+					addF(o, Finding{Kind: "K", What: "K.gosrc.cal: the Go source of the calendar as translated into Lean (Gen/GoCal.lean) differs from the running code on " + dstr(date), Impl: gimpl, Model: gm, Input: in})
+				}
+			}
 			oracleCal(date, o, in)
 			// same bucket <=> same period, between consecutive days and within the year
 			hs := [5]uint32{uint32(period.NewDayFromDate(date).Hash()), uint32(period.NewWeekFromDate(date).Hash()), uint32(period.NewMonthFromDate(date).Hash()),
